@@ -13,6 +13,10 @@ Cleanup edges are never followed (Body.succ).  This is an abstract interpretatio
 from . import core
 
 
+def canon_adt(p):
+    return core.canon(p) if p else p
+
+
 def _tv_not(x):
     return None if x is None else (not x)
 
@@ -32,6 +36,11 @@ class Explorer:
         for pred, val in self.some_atoms:
             if pred(x):
                 return val
+        if x[0] == "call" and isinstance(x[1], str) and x[2] and core.callee_base(x[1]) in (
+                "core::result::Result::map_err", "core::result::Result::map", "core::option::Option::map", "core::option::Option::ok_or_else",
+                "core::option::Option::ok_or", "core::result::Result::ok", "core::option::Option::copied", "core::option::Option::cloned"):
+            # these keep Some/Ok-ness of their receiver
+            return self.is_some_term(x[2][0], depth + 1)
         if x[0] == "agg" and x[2] in ("Some", "Ok"):
             return True
         if x[0] == "agg" and x[2] in ("None", "Err"):
@@ -128,13 +137,24 @@ class Explorer:
             return env[l]
         return self.eval_term(self.view.op(o))
 
+    VARIANT_DISCR = {"None": 0, "Some": 1, "Ok": 0, "Err": 1, "Continue": 0, "Break": 1}
+
     def eval_rvalue(self, rv, env):
         k = rv["k"]
         if k == "use":
             return self.eval_operand(rv["op"], env)
+        # Option / Result / ControlFlow values of plain locals are tracked by variant along the path (`Err(e)` built in one arm
+        # and tested by `?` after the join is not confused with the `Ok` of the other arm)
+        if k == "aggregate" and rv.get("akind") == "adt" and rv.get("variant") in ("None", "Some", "Ok", "Err") and \
+                canon_adt(rv.get("adt")) in ("core::option::Option", "core::result::Result"):
+            return ("variant", rv["variant"])
+        if k == "discr" and not rv["place"]["proj"]:
+            x = env.get(rv["place"]["local"])
+            if isinstance(x, tuple) and x[0] == "variant":
+                return self.VARIANT_DISCR[x[1]]
         if k == "unop" and rv["op"] == "Not":
             l = self._op_local(rv["x"])
-            if l is not None and l in env:
+            if l is not None and l in env and not isinstance(env[l], tuple):
                 return not env[l]
         if k == "binop" and rv["op"] in ("BitAnd", "BitOr", "Eq", "Ne"):
             a = self.eval_operand(rv["l"], env)
@@ -205,8 +225,10 @@ class Explorer:
             succ = list(b.succ(bi))
             if t["k"] == "switch":
                 v = self.eval_operand(t["discr"], env)
+                if isinstance(v, tuple):
+                    v = None
                 if v is not None:
-                    want = 1 if v else 0
+                    want = v if (isinstance(v, int) and not isinstance(v, bool)) else (1 if v else 0)
                     tgt = None
                     for val, tb in t["targets"]:
                         if val == want:
@@ -225,7 +247,18 @@ class Explorer:
                             sm = None if r_ is None else (0 if r_ else 1)       # Continue = 0, Break = 1
                         else:
                             r_ = self.is_some_term(y)
-                            sm = None if r_ is None else (1 if r_ else 0)       # Some = 1, None = 0
+                            # Option: None = 0, Some = 1; Result: Ok = 0, Err = 1 (the type of the place whose discriminant is read)
+                            dl_ = self._op_local(t["discr"])
+                            ty_ = ""
+                            for st_ in blk["stmts"]:
+                                if st_["k"] == "assign" and st_["lhs"]["local"] == dl_ and st_["rv"]["k"] == "discr":
+                                    ty_ = st_["rv"]["place"].get("ty") or ""
+                            if "result::Result" in ty_:
+                                sm = None if r_ is None else (0 if r_ else 1)
+                            elif "option::Option" in ty_:
+                                sm = None if r_ is None else (1 if r_ else 0)
+                            else:
+                                sm = None
                     if sm is not None:
                         tgt = None
                         for val, tb in t["targets"]:
@@ -249,7 +282,15 @@ class Explorer:
                 d = t.get("dest")
                 if d is not None and not d["proj"]:
                     from .view import pnorm
-                    v = self.eval_term(pnorm(self.view.T.call_term(bi)))
+                    v = None
+                    fn_ = t["func"].get("fn") if isinstance(t.get("func"), dict) else None
+                    if fn_ is not None and fn_.get("path", "").endswith("Try::branch") and len(t["args"]) == 1:
+                        a_ = self._op_local(t["args"][0])
+                        x_ = env.get(a_) if a_ is not None else None
+                        if isinstance(x_, tuple) and x_[0] == "variant":
+                            v = ("variant", "Continue" if x_[1] in ("Some", "Ok") else "Break")
+                    if v is None:
+                        v = self.eval_term(pnorm(self.view.T.call_term(bi)))
                     if v is None:
                         env.pop(d["local"], None)
                     else:
